@@ -9,7 +9,7 @@ from ..cfg import CFG, definite_assignment, target_names
 from ..model import AnalysisError, Func, Repo, short, walk_no_nested
 from ..report import RuleResult
 from .c04 import r4_1
-from .common import ancestors, norm, parents_map, single_defs, names_in
+from .common import expand_locals, enclosing_stmt, ancestors, norm, parents_map, single_defs, names_in
 
 
 def njit_functions(repo: Repo, files: Optional[Set[str]] = None) -> List[Func]:
@@ -582,7 +582,63 @@ def r10_7(repo: Repo, rule: str = "R10.7") -> RuleResult:
     return rr
 
 
-RULES = [r10_1, r10_2, r10_3, r10_4, r10_5, r10_6, r10_7]
+def r10_8(repo: Repo, rule: str = "R10.8") -> RuleResult:
+    """`A[len(A) - 1]` is index -1 when A is empty: without bounds checking that is silent (the last byte before the
+    buffer / Python's wrap-around), with bounds checking or in interpreter mode an IndexError.  The read must sit
+    under a test that the length is positive."""
+    from .common import rel_under
+
+    rr = RuleResult(rule, "reads of the last element `A[len(A) - 1]` of a parameter array are dominated by a non-empty test", floor=2)
+    for f in njit_functions(repo):
+        sd = single_defs(f)
+        g = None
+        pm = parents_map(f.node)
+        for n in walk_no_nested(f.node):
+            if not (isinstance(n, ast.Subscript) and isinstance(n.ctx, ast.Load) and isinstance(n.value, ast.Name) and n.value.id in f.params
+                    and not isinstance(n.slice, (ast.Slice, ast.Tuple))):
+                continue
+            a = n.value.id
+            e = norm(expand_locals(n.slice, f, 3)).replace(" ", "")
+            if e not in {lf.replace(" ", "") + "-1" for lf in _len_forms(a)}:
+                continue
+            lens = set(_len_forms(a)) | {k for k, v in sd.items() if norm(v) in _len_forms(a)}
+            if g is None:
+                g = CFG(f.node)
+            ok = None
+            # conjunct earlier in the same test, or a dominating test
+            prev = n
+            for anc in ancestors(n, pm):
+                if isinstance(anc, ast.BoolOp) and isinstance(anc.op, ast.And):
+                    idx = [i for i, v in enumerate(anc.values) if any(prev is x for x in ast.walk(v))]
+                    for v in (anc.values[: idx[0]] if idx else []):
+                        r = rel_under(v, "true")
+                        if r and r[0] == "lt" and r[1] in ("0", "0.0") and r[2] in lens:
+                            ok = norm(v)
+                if isinstance(anc, ast.stmt):
+                    break
+                prev = anc
+            st = enclosing_stmt(n, pm)
+            for t, lab in g.guards_of(g.node_for(st)):
+                ta = g.nodes[t].ast
+                if not isinstance(ta, ast.AST):
+                    continue
+                conj = ta.values if isinstance(ta, ast.BoolOp) and isinstance(ta.op, ast.And) and lab == "true" else [ta]
+                for v in conj:
+                    r = rel_under(v, lab)
+                    if r and ((r[0] == "lt" and r[1] in ("0", "0.0") and r[2] in lens) or (r[0] == "le" and r[1] in ("1",) and r[2] in lens)
+                              or (r[0] == "ne" and any(frozenset((L, z)) == r[1] for L in lens for z in ("0",)))):
+                        ok = norm(v)
+            construct = "%s[len(%s) - 1]" % (a, a)
+            if ok:
+                rr.ok(f, construct, "under `%s`" % ok, n.lineno)
+            else:
+                rr.bad(f, construct, "`%s` reads the last element of `%s` with no dominating test that `%s` is non-empty: for an empty array the index "
+                       "is -1 - an out-of-bounds read in the compiled kernel, an IndexError with bounds checking or without compilation"
+                       % (norm(n), a, a), n.lineno)
+    return rr
+
+
+RULES = [r10_1, r10_2, r10_3, r10_4, r10_5, r10_6, r10_7, r10_8]
 
 CLAIM = (
     "R10.1 definite assignment (with the for-loop zero-trip edge) in all njit functions; R10.2 every np.searchsorted "
@@ -590,7 +646,8 @@ CLAIM = (
     "are re-bound after append (=R4.1); R10.4 affine index bounds for the recognised `for v in range(lo, len(A)-d)` "
     "shapes; R10.5 prange stores are indexed by the induction variable; R10.6 slots of np.empty buffers and placeholder "
     "lists are stored on every iteration of their filling loop (no one-armed conditional around the store); R10.7 cursors that "
-    "index parameter arrays inside a while (merge) loop are strictly bounded by the loop test against the length of an array they index."
+    "index parameter arrays inside a while (merge) loop are strictly bounded by the loop test against the length of an array they index; "
+    "R10.8 a read of the last element `A[len(A) - 1]` of a parameter array is dominated by a test that A is non-empty."
 )
 NOT_DECIDED = (
     "indices that are data (window_size_array[i, target_word], baseline_probabilities[idx], token ids beyond a "
